@@ -243,6 +243,8 @@ def run(chk):
                                        "lock().unwrap(); if it emits through the same sink the thread deadlocks on itself"
                                        % (b.key, lockc.loc, cs.callee.get("full") or "a callback", cs.loc)), [], cs.loc
         return True, "", ["%d lock acquisitions outside the workers of emit_file/emit_otlp/emit_term; positive control: %d in emit_batcher" % (n, control)]
+    from . import c10
+    c10.buffer_rule(chk, P, "C13.R5:buffer-holds-one-event")
     chk.ob("C13.R1c:no-lock-across-user-code", "no mutex is held across the writer / value code a sink runs on the emitting thread", no_lock_across_user_code)
 
     # ---- R2 ----------------------------------------------------------------------------------------------------------------
